@@ -240,9 +240,7 @@ def features (c : Ctx String String) (identity : Ava String) (required optional 
           | _ => false) then ["restr-regex-drop"] else [])
   ["sec-" ++ secName c] ++ branch ++ restr
 
-def handle (line : Json) : Json :=
-  let cs := (obj? line "case").getD Json.null
-  let impl := (obj? line "impl").getD Json.null
+def handleOne (cs impl : Json) : Json :=
   let env := (obj? impl "env").getD Json.null
   let custom := (obj? cs "custom").getD Json.null
   let S := mkOps env
@@ -318,5 +316,28 @@ def handle (line : Json) : Json :=
         ("spec_model", specResponse c identity required optional subj m && pinnedRel m),
         ("spec_impl", specResponse c identity required optional subj iv && pinnedRel iv && unchanged)]
     else Json.mkObj [("proto_error", Json.str ("unknown op " ++ op))]
+
+/-- A sequence answered by ONE long-lived Policy / Server: the model is stateless, so the expected
+    answer of every step is the single-step answer for that step alone (the step's fields override
+    the shared ones); the spec is evaluated per step on the implementation's output. -/
+def handle (line : Json) : Json :=
+  let cs := (obj? line "case").getD Json.null
+  let impl := (obj? line "impl").getD Json.null
+  if strD cs "op" == "sequence" then
+    let steps := arrD cs "steps"
+    let impls := arrD impl "steps"
+    let answers := (steps.zip (impls ++ List.replicate (steps.length - impls.length) Json.null)).map fun (st, im) =>
+      handleOne (cs.mergeObj st) im
+    let okOf := fun (k : String) (a : Json) => boolD a k false
+    let firstBad := (answers.zipIdx.find? (fun (a, _) => !okOf "spec_impl" a)).map (·.2)
+    Json.mkObj [("model", Json.mkObj [("steps", jarr (answers.map fun a => (obj? a "model").getD Json.null))]),
+      ("path", Json.str ("sequence/" ++ toString steps.length ++ "/" ++
+        String.intercalate "+" (answers.map fun a => ((strD a "path").splitOn "/").getD 3 "?"))),
+      ("features", jstrs (answers.flatMap fun a => strList a "features").eraseDups),
+      ("steps", jarr answers),
+      ("spec_model", answers.all (okOf "spec_model")),
+      ("spec_impl", answers.all (okOf "spec_impl") && impls.length == steps.length),
+      ("why", match firstBad with | some i => Json.str ("step " ++ toString i) | none => Json.null)]
+  else handleOne cs impl
 
 def main : IO Unit := serve handle
